@@ -51,18 +51,27 @@ def gen_case(rng):
         return ";".join(steps), TOL, "resume", len(data)
     if r < 0.45:
         # transient interruptions, all within tolerance: delivered = uninterrupted stream
+        # configurations: the usual one (wait much shorter than the tolerance); a wait longer than the tolerance
+        # (single interruptions only: the retry itself outlasts the tolerance, but the source has resumed by
+        # then); a wait of more than half the tolerance (double interruptions: 700 ms + the second look at the
+        # clock are within 1200 ms with a wide margin)
+        cfg = rng.random()
+        tol, wait, maxk = (TOL, 1, 2) if cfg < 0.7 else (120, 200, 1) if cfg < 0.85 else (1200, 700, 2)
+        if wait != 1:
+            chunks = chunks[:3]
+            data = b"".join(chunks)
         for i, c in enumerate(chunks):
             if rng.random() < 0.3:
                 # the reader hands over the bytes and io.EOF in one Read call (legal for an io.Reader)
                 steps.append("de:" + c.hex())
-                if i < len(chunks) - 1 and rng.random() < 0.5:
+                if i < len(chunks) - 1 and rng.random() < 0.5 and maxk > 1:
                     steps.append(rng.choice(["eof", "timeout"]))
                 continue
             steps.append("d:" + c.hex())
             if i < len(chunks) - 1:
-                k = rng.choice([1, 1, 2])
+                k = rng.choice([1, 1, 2]) if maxk > 1 else 1
                 steps += [rng.choice(["eof", "timeout"]) for _ in range(k)]
-        return ";".join(steps), TOL, "resume", len(data)
+        return ";".join(steps), tol, "resume", len(data), wait
     if r < 0.6:
         # tolerance zero: the first EOF/timeout stops
         stop_after = rng.randint(1, len(chunks))
@@ -98,7 +107,7 @@ def run(res, args):
     res.rule = ("the real filehandler.Handle behind bufio.Reader over a scripted io.Reader: single and double EOF / 'i/o timeout' "
                 "results between frames and inside frames at the phase boundaries (after 1, 3, 5 bytes, mid-payload, inside the "
                 "CRC), tolerance zero, other read errors at any position, silence of 4x the tolerance; tolerance 400 ms, wait "
-                "1 ms, pauses either 0 or 4x the tolerance; non-trivial = an interruption inside a frame")
+                "1 ms (also: wait 200 ms > tolerance 120 ms with single interruptions, wait 700 ms > half the tolerance 1200 ms with double ones), pauses either 0 or 4x the tolerance; non-trivial = an interruption inside a frame")
     res.assumptions = ["wall-clock behaviour between the margins (pauses of 0 or >= 4x the tolerance) is not explored",
                        "the model's clock is driven by the script's pauses and the loop's own sleeps"]
     res.trusted = ["harness: cmd/impl eofretry (scripted reader); ocaml driver eofretry"]
@@ -108,18 +117,19 @@ def run(res, args):
     rng = common.rng_for(res.seed, "c13")
     n = 150 if res.tier == "quick" else 4000
     gens = [gen_case(rng) for _ in range(n)]
-    cases = ["eofretry %s %d 1" % (g[0], g[1]) for g in gens]
+    cases = ["eofretry %s %d %d" % (g[0], g[1], g[4] if len(g) > 4 else 1) for g in gens]
     impl, model = framing.run_both(res, "eofretry", cases, timeout=3000, shards=14)
     # expected: sequential framing of the bytes supplied before the stop
     streams = []
-    for script, tol, cls, nbytes in gens:
+    for script, tol, cls, nbytes in [g[:4] for g in gens]:
         data = b"".join(bytes.fromhex(s.split(":", 1)[1]) for s in script.split(";") if s.startswith(("d:", "de:")))
         streams.append(data[:nbytes])
     exp_lines, e = common.run_lines(common.MODEL_BIN, "stream", ["stream %d debug %s" % (framing.T0, gen.hx(s)) for s in streams])
     if impl and exp_lines:
-        for (script, tol, cls, nbytes), c, line, el in zip(gens, cases, impl, exp_lines):
+        for (script, tol, cls, nbytes), c, line, el in zip([g[:4] for g in gens], cases, impl, exp_lines):
             res.evaluations += 1
             res.count(cls)
+            res.count("tolerance %s ms, wait %s ms" % tuple(c.split()[2:4]))
             if line in ("hang", "panic"):
                 res.add_violation(dict(case=c[:300], obs=line), "the file handler did not return normally")
                 continue
